@@ -290,7 +290,7 @@ func MutateJSON(doc []byte, nops int, nBases int, ch Chooser) ([]byte, []string,
 				case 6:
 					nv, what = json.Number(v.String()), "decimal-same-value"
 				case 7:
-					nv, what = json.Number("-" + v.String()), "negative-decimal"
+					nv, what = json.Number("-"+v.String()), "negative-decimal"
 				case 8:
 					nv, what = s+"=", "bad-base64"
 				}
